@@ -10,9 +10,10 @@ for id in $ids; do
   wt=/tmp/mr-$id
   git -C /repo worktree add --detach $wt HEAD >/dev/null 2>&1 || { echo "$id worktree-failed"; continue; }
   if ! git -C $wt apply /verif/seeded/$id/patch.diff 2>/dev/null; then echo "$id $prop patch-does-not-apply"; git -C /repo worktree remove --force $wt; continue; fi
+  before=$(ls -d .build/alt-* 2>/dev/null | sort)
   out=$(VERIF_EVIDENCE=/tmp/mr-$id.ev.json VERIF_REPO=$wt ./check $prop 2>&1)
   n=$(echo "$out" | grep -c '^VIOLATION')
   if [ $n -gt 0 ]; then echo "$id $prop caught $n $(echo "$out" | grep '  signature' | head -1 | cut -c1-110)"; else echo "$id $prop MISSED $(echo "$out" | grep -E 'HARNESS|BUILD' | head -1 | cut -c1-100)"; fi
   git -C /repo worktree remove --force $wt; rm -f /tmp/mr-$id.ev.json
-  rm -rf .build/alt-*
+  for d in $(ls -d .build/alt-* 2>/dev/null | sort); do echo "$before" | grep -qx "$d" || rm -rf "$d"; done
 done
